@@ -244,12 +244,13 @@ pub fn filter_vector(specs: &[FeatureSpec], l: &Value) -> Value {
     let re_set = str_set(&v["reSet"]);
     let closure_set = str_set(&v["closure"]);
     let re = (v["useRe"] == true).then(|| {
-        let alt = if re_set.is_empty() {
-            "NO_SUCH_SCENARIO".to_owned()
-        } else {
-            re_set.join("|")
-        };
-        regex::Regex::new(&format!("^(?:{alt})$")).unwrap()
+        // the names of a feature and of a rule are always among the
+        // alternatives: the regex is about SCENARIO names, so they select
+        // nothing
+        let mut alt = re_set.clone();
+        alt.push("F1".to_owned());
+        alt.push("R1".to_owned());
+        regex::Regex::new(&format!("^(?:{})$", alt.join("|"))).unwrap()
     });
     let text = render_expr(&v["expr"]);
     let tags = (v["useTags"] == true).then(|| {
